@@ -137,6 +137,7 @@ def _build(sc, *, control=False, trace=False):
     evs = pr.build_initial()
     for e in evs:
         sim.schedule(e)
+    pr.apply_late_cancels()
     return pr, sim
 
 
